@@ -829,6 +829,9 @@ def check_pad(P, R, f):
 
 
 def check_ids(P, R):
+    # "ids are never reused while the process lives": the counter is only post-incremented and is the only source of ids
+    from . import c06 as C06
+    C06.ids_rule(P, R, "C13.counter")
     f = None
     for k, fn in P.functions.items():
         if fn["q"] == "IPhreeqcLib::DestroyIPhreeqc":
